@@ -10,7 +10,6 @@ the call raised SystemExit or KeyboardInterrupt).  A second target does the
 same around ``utils.import_module_from_path``.
 """
 import asyncio
-import gc
 import os
 import sys
 import warnings
@@ -114,8 +113,30 @@ def build_doc(case):
     return lines
 
 
+class _LoopRecorder(object):
+    """records every event loop created through the event loop policy while installed (asyncio.run, asyncio.Runner and
+    asyncio.new_event_loop all go through it); much cheaper than scanning the heap after every case"""
+
+    def __init__(self):
+        self.policy = asyncio.get_event_loop_policy()
+        self.orig = self.policy.new_event_loop
+        self.created = []
+
+        def recording():
+            loop = self.orig()
+            self.created.append(loop)
+            return loop
+        self.policy.new_event_loop = recording
+
+    def uninstall(self):
+        try:
+            del self.policy.new_event_loop      # drop the instance attribute, the class method shows again
+        except AttributeError:
+            pass
+
+
 def snapshot():
-    loops = {id(o) for o in gc.get_objects() if isinstance(o, asyncio.BaseEventLoop)}
+    loops = _LoopRecorder()
     return {
         'stdout': sys.stdout, 'stderr': sys.stderr, 'path_obj': sys.path, 'path': list(sys.path),
         'filters': list(warnings.filters), 'showwarning': warnings.showwarning, 'cwd': os.getcwd(), 'loops': loops,
@@ -146,8 +167,7 @@ def compare(before, what):
         running = None
     if running is not None:
         problems.append(('loop_running', 'an event loop is still running'))
-    gc.collect()
-    left = [o for o in gc.get_objects() if isinstance(o, asyncio.BaseEventLoop) and id(o) not in before['loops'] and not o.is_closed()]
+    left = [o for o in before['loops'].created if not o.is_closed()]
     if left:
         problems.append(('loop_unclosed', '{} event loop(s) created by the run are not closed'.format(len(left))))
     if os.getcwd() != before['cwd']:
@@ -166,8 +186,9 @@ def restore(before):
         os.chdir(before['cwd'])
     except OSError:
         pass
-    for o in gc.get_objects():
-        if isinstance(o, asyncio.BaseEventLoop) and id(o) not in before['loops'] and not o.is_closed():
+    before['loops'].uninstall()
+    for o in before['loops'].created:
+        if not o.is_closed():
             try:
                 o.close()
             except Exception:  # noqa
@@ -390,6 +411,8 @@ def selftest():
     assert compare(b, 't')[0][0] == 'loop_unclosed'
     loop.close()
     assert compare(b, 't') == []
+    restore(b)
+    assert 'new_event_loop' not in vars(asyncio.get_event_loop_policy())
     for oc in OUTCOMES:
         build_doc({'outcome': oc, 'features': FEATURES[:2], 'split': True, 'fillers': 2, 'position': 'middle'})
 
@@ -397,6 +420,6 @@ def selftest():
 def jobs(tier):
     quick = tier == 'quick'
     out = [('product#%d' % s, 'product', dict(shard=s, nshards=8)) for s in range(8)]
-    out += [('hyp_runs#%d' % s, 'hyp_runs', dict(n_examples=300 if quick else 6000)) for s in range(7)]
+    out += [('hyp_runs#%d' % s, 'hyp_runs', dict(n_examples=1500 if quick else 20000)) for s in range(7)]
     out += [('hyp_imports', 'hyp_imports', dict(n_examples=40 if quick else 600))]
     return out
